@@ -155,6 +155,72 @@ pub fn run(ctx: &'static Ctx) {
             }
         }
     });
+    // ---- every string over {name character, '.', '\\'} up to 10 characters: after one optional leading backslash, a segment
+    // whose length is not four (a backslash counts as a character) makes the path malformed
+    let shapes3 = AtomicU64::new(0);
+    let unjudged = AtomicU64::new(0);
+    (0..=10usize).into_par_iter().for_each(|len| {
+        let total = 3u32.pow(len as u32);
+        for code in 0..total {
+            let mut c = code;
+            let s: String = (0..len)
+                .map(|i| {
+                    let d = c % 3;
+                    c /= 3;
+                    match d {
+                        0 => (b'A' + (i % 26) as u8) as char,
+                        1 => '.',
+                        _ => '\\',
+                    }
+                })
+                .collect();
+            if !s.contains('\\') {
+                continue; // covered by the two-symbol enumeration above
+            }
+            shapes3.fetch_add(1, Ordering::Relaxed);
+            let (rooted, body) = match s.strip_prefix('\\') {
+                Some(b) => (true, b),
+                None => (false, s.as_str()),
+            };
+            let all4 = !body.is_empty() && body.split('.').all(|p| p.len() == 4);
+            if all4 && body.contains('\\') {
+                // every segment has exactly four characters, one of them a backslash: outside the name alphabet, and the
+                // property only demands refusal of segments that are not four characters long, so this is not judged
+                unjudged.fetch_add(1, Ordering::Relaxed);
+                continue;
+            }
+            let well = all4;
+            if well {
+                let segs: Vec<[u8; 4]> = body.split('.').map(|p| { let b = p.as_bytes(); [b[0], b[1], b[2], b[3]] }).collect();
+                check_path(ctx, rooted, &segs, "backslash-placement enumeration");
+            } else {
+                check_malformed(ctx, &s);
+            }
+        }
+    });
+    ctx.st(shapes3.load(Ordering::Relaxed));
+    ctx.engine("E3.backslash-placements", json!({"strings": shapes3.load(Ordering::Relaxed), "not_judged_four_character_segments_holding_a_backslash": unjudged.load(Ordering::Relaxed), "what": "all strings over {name character, '.', '\\'} of length 0..=10 that contain a backslash"}));
+    // a backslash in front of each later segment of 2..4-segment paths (what joining a parent path and an absolute child gives)
+    for c in 2..=4usize {
+        for w in 1..c {
+            for rooted in [false, true] {
+                let mut s = String::new();
+                if rooted {
+                    s.push('\\');
+                }
+                for i in 0..c {
+                    if i > 0 {
+                        s.push('.');
+                    }
+                    if i == w {
+                        s.push('\\');
+                    }
+                    s.push_str(std::str::from_utf8(&seg(i)).unwrap());
+                }
+                check_malformed(ctx, &s);
+            }
+        }
+    }
     ctx.st(shapes.load(Ordering::Relaxed));
     ctx.engine("E3.dot-placements", json!({"strings": shapes.load(Ordering::Relaxed), "what": "all 2^(len+1)-per-length strings over {name character, '.'} for len 0..=14, rooted and relative"}));
 
